@@ -199,3 +199,12 @@ func VerifSealWithKey(id [4]byte, counter uint64, key [KeyLen]byte, mt MessageTy
 	ss := &SessionState{sessionID: SessionID(id), count: counter}
 	return ss.sealPacketLocked(mt, payload, &key)
 }
+
+// VerifAdvForgeCookie seals a cookie for (client KEM key, address, shared secret) under a cookie key of the
+// caller's choice with the server's own routine: what an attacker can compute for keys it can guess.
+func VerifAdvForgeCookie(cookieKey [KeyLen]byte, kp *keys.KEMKeyPair, addr *net.UDPAddr, k []byte) ([]byte, error) {
+	hs := &HandshakeState{cookieKey: cookieKey, remoteAddr: addr, kem: &kemState{remoteEphemeral: kp.Public}}
+	b := make([]byte, PQCookieLen)
+	n, err := hs.writeCookie(b, k)
+	return b[:n], err
+}
